@@ -83,6 +83,10 @@ Definition print_sobj (o : sobj) : bytes :=
   | OLiteral b bin => print_literal b bin
   end.
 Definition pstr (v : pyval) : bytes := print_sobj (build v).
+(* a header object (a str) or None *)
+Definition ostr := option (list N).
+Definition of_ostr (o : ostr) : pyval := match o with Some s => VStr s | None => VNone end.
+Definition postr (o : ostr) : bytes := pstr (of_ostr o).
 Definition pstr_fb (v : pyval) (fb : bytes) : bytes := print_sobj (build_fb v fb).
 
 (* ------------------------------------------------------- modutf7_encode *)
@@ -143,11 +147,11 @@ Definition print_astring (b : bytes) : bytes :=
   | _ => if forallb py_astring_char b then b else print_quoted b
   end.
 Definition INBOXb : bytes := Eval vm_compute in pbs "INBOX".
-(* str.upper() == 'INBOX': besides the ASCII letters U+0131 upper-cases to I *)
+(* mailbox.isascii() and mailbox.upper() == 'INBOX' *)
 Definition is_inbox (s : list N) : bool :=
   match s with
   | [a; b; c; d; e] =>
-    ((a =? 73) || (a =? 105) || (a =? 305)) && ((b =? 78) || (b =? 110)) &&
+    ((a =? 73) || (a =? 105)) && ((b =? 78) || (b =? 110)) &&
     ((c =? 66) || (c =? 98)) && ((d =? 79) || (d =? 111)) && ((e =? 88) || (e =? 120))
   | _ => false
   end.
@@ -256,12 +260,12 @@ Definition print_code (c : code) : bytes :=
   end.
 
 (* ------------------------------------------------- envelope, bodystructure *)
-Record address := { a_name : list N; a_user : list N; a_domain : list N }.
+Record addr := { a_name : list N; a_user : list N; a_domain : list N }.
 (* _AddressList._parse *)
-Definition print_address (a : address) : bytes :=
+Definition print_address (a : addr) : bytes :=
   py_list [pstr (VStr (a_name a)); NILb; pstr (VStr (a_user a)); pstr (VStr (a_domain a))].
 (* None: no header of that name; Some l: the addresses of all its headers *)
-Definition addr_field := option (list address).
+Definition addr_field := option (list addr).
 (* EnvelopeStructure._addresses(headers, fallback) *)
 Definition with_fallback (f fb : addr_field) : addr_field :=
   match f, fb with
@@ -277,22 +281,22 @@ Definition print_addr_field (f : addr_field) : bytes :=
 
 Record envelope := {
   e_date : option datetime;          (* Date header with a parsed datetime *)
-  e_subject : pyval;
+  e_subject : ostr;
   e_from : addr_field; e_sender : addr_field; e_reply_to : addr_field;
   e_to : addr_field; e_cc : addr_field; e_bcc : addr_field;
-  e_in_reply_to : pyval; e_message_id : pyval
+  e_in_reply_to : ostr; e_message_id : ostr
 }.
 Definition print_envelope (e : envelope) : bytes :=
   py_list [ match e_date e with Some d => print_datetime d | None => NILb end;
-            pstr (e_subject e);
+            postr (e_subject e);
             print_addr_field (e_from e);
             print_addr_field (with_fallback (e_sender e) (e_from e));
             print_addr_field (with_fallback (e_reply_to e) (e_from e));
             print_addr_field (e_to e);
             print_addr_field (e_cc e);
             print_addr_field (e_bcc e);
-            pstr (e_in_reply_to e);
-            pstr (e_message_id e) ].
+            postr (e_in_reply_to e);
+            postr (e_message_id e) ].
 
 Definition params := list (list N * list N).
 (* _ParamsList._value *)
@@ -311,12 +315,12 @@ Definition print_disposition (d : disposition) : bytes :=
   end.
 
 Record bfields := {
-  bf_params : params; bf_id : pyval; bf_desc : pyval; bf_enc : pyval; bf_size : N;
-  bf_md5 : pyval; bf_dsp : disposition; bf_lang : pyval; bf_loc : pyval
+  bf_params : params; bf_id : ostr; bf_desc : ostr; bf_enc : ostr; bf_size : N;
+  bf_md5 : ostr; bf_dsp : disposition; bf_lang : ostr; bf_loc : ostr
 }.
 Inductive body :=
 | BMulti (parts : list body) (subtype : list N) (p : params) (dsp : disposition)
-         (lang loc : pyval)
+         (lang loc : ostr)
 | BBasic (maintype subtype : list N) (f : bfields)          (* ContentBodyStructure *)
 | BText (subtype : list N) (f : bfields) (lines : N)        (* TextBodyStructure *)
 | BMsg (f : bfields) (lines : N) (env : envelope) (b : body).  (* MessageBodyStructure *)
@@ -324,14 +328,14 @@ Inductive body :=
 Definition SEVENBIT : bytes := Eval vm_compute in pbs "7BIT".
 (* maintype, subtype, params, id, description, encoding, size *)
 Definition head_items (mt st : list N) (f : bfields) : list bytes :=
-  [pstr (VStr mt); pstr (VStr st); print_params (bf_params f); pstr (bf_id f); pstr (bf_desc f);
-   pstr_fb (bf_enc f) SEVENBIT; num (bf_size f)].
+  [pstr (VStr mt); pstr (VStr st); print_params (bf_params f); postr (bf_id f); postr (bf_desc f);
+   pstr_fb (of_ostr (bf_enc f)) SEVENBIT; num (bf_size f)].
 (* md5, disposition, language, location *)
 Definition ext_items (f : bfields) : list bytes :=
-  [pstr (bf_md5 f); print_disposition (bf_dsp f); pstr (bf_lang f); pstr (bf_loc f)].
+  [postr (bf_md5 f); print_disposition (bf_dsp f); postr (bf_lang f); postr (bf_loc f)].
 Definition empty_fields : bfields :=
-  {| bf_params := []; bf_id := VNone; bf_desc := VNone; bf_enc := VNone; bf_size := 0;
-     bf_md5 := VNone; bf_dsp := None; bf_lang := VNone; bf_loc := VNone |}.
+  {| bf_params := []; bf_id := None; bf_desc := None; bf_enc := None; bf_size := 0;
+     bf_md5 := None; bf_dsp := None; bf_lang := None; bf_loc := None |}.
 Definition TEXTs : list N := Eval vm_compute in pbs "text".
 Definition MESSAGEs : list N := Eval vm_compute in pbs "message".
 Definition RFC822s : list N := Eval vm_compute in pbs "rfc822".
@@ -352,7 +356,7 @@ Fixpoint print_body (ext : bool) (b : body) : bytes :=
               | _ => flat_map (print_body ext) parts
               end)
              :: pstr (VStr st)
-             :: (if ext then [print_params p; print_disposition dsp; pstr lang; pstr loc]
+             :: (if ext then [print_params p; print_disposition dsp; postr lang; postr loc]
                  else []))
   | BBasic mt st f =>
     py_list (head_items mt st f ++ (if ext then ext_items f else []))
@@ -367,8 +371,16 @@ Fixpoint print_body (ext : bool) (b : body) : bytes :=
 Record fsection := {
   fs_parts : list N;            (* section.parts *)
   fs_spec : option bytes;       (* section.specifier, upper-cased *)
-  fs_headers : list bytes       (* section.headers: raw astrings, upper-cased *)
+  fs_headers : list bytes       (* section.headers: the names, upper-cased *)
 }.
+(* FetchAttribute._header_name: AString(name) when the name is 7-bit and
+   String.build would quote it, a literal otherwise *)
+Definition print_header_name (h : bytes) : bytes :=
+  match build (VBytes h) with
+  | OQuoted _ => if forallb (fun c => c <? 128) h then print_astring h
+                 else print_literal h false
+  | _ => print_literal h false
+  end.
 Fixpoint join_dot (l : list N) : bytes :=
   match l with
   | [] => []
@@ -387,7 +399,7 @@ Definition print_section (s : fsection) : bytes :=
    | Some (c :: sp) =>
      (c :: sp) ++ (match fs_headers s with
                    | [] => []
-                   | hs => SPc :: py_list (sort_by bytes_ltb hs)
+                   | hs => SPc :: py_list (map print_header_name (sort_by bytes_ltb hs))
                    end)
    | _ => []
    end) ++ [93].
